@@ -108,10 +108,10 @@ class Ctx:
 
 class Contract:
     def __init__(self, qname, prop, pre=None, post=None, assigns=None, safety=(), use=(), signature=None, name=None,
-                 canary=True, unroll=None, setup=None, max_depth=None, name_locals=0, safety_via=None, relational=(), frame=None, on_call=None, ret_model=None, assumed=False):
+                 canary=True, unroll=None, setup=None, max_depth=None, name_locals=0, safety_via=None, relational=(), frame=None, on_call=None, ret_model=None, assumed=False, lambda_ordinal=None, slice_loop=None):
         self.qname = qname; self.prop = prop; self.pre = pre; self.post = post; self.assigns = assigns
         self.safety = set(safety); self.use = list(use); self.signature = signature
-        self.name = name or qname; self.name_locals = name_locals; self.safety_via = safety_via; self.relational = list(relational); self.frame = frame; self.on_call = on_call; self.ret_model = ret_model; self.assumed = assumed; self.canary = canary; self.unroll = unroll; self.setup = setup; self.max_depth = max_depth
+        self.name = name or qname; self.name_locals = name_locals; self.safety_via = safety_via; self.relational = list(relational); self.frame = frame; self.on_call = on_call; self.ret_model = ret_model; self.assumed = assumed; self.lambda_ordinal = lambda_ordinal; self.slice_loop = slice_loop; self.canary = canary; self.unroll = unroll; self.setup = setup; self.max_depth = max_depth
 
     def applies(self, d, eng):
         return self.signature is None or self.signature in d['type']['qualType']
@@ -120,7 +120,21 @@ class Contract:
         ds = [d for d in eng.ast.find_functions(self.qname) if self.applies(d, eng)]
         if len(ds) != 1:
             raise Unsupported('contract %s: %d matching definitions in the current tree' % (self.name, len(ds)))
-        return ds[0]
+        d = ds[0]
+        if self.lambda_ordinal is not None:
+            lams = []
+            def visit(x):
+                if not isinstance(x, dict): return
+                if x.get('kind') == 'LambdaExpr':
+                    lams.append(x)
+                    for c in x.get('inner', [])[1:]: visit(c)
+                    return
+                for c in x.get('inner', []): visit(c)
+            visit(eng.ast.body_of(d))
+            if self.lambda_ordinal >= len(lams): raise Unsupported('contract %s: function has only %d lambdas' % (self.name, len(lams)))
+            rec = lams[self.lambda_ordinal]['inner'][0]
+            return next(c for c in rec['inner'] if c.get('kind') == 'CXXMethodDecl' and c.get('name') == 'operator()')
+        return d
 
     # -- used at a call site instead of the body (modular verification: the caller sees only this contract)
     def apply_at_call(self, eng, d, this, arg_nodes, st, fr, n):
@@ -211,6 +225,8 @@ class LoopContract:
             if isinstance(v, LVS): continue     # references / objects: contents live in the heap
             st.env[vid] = self.havoc_value(eng, v, eng.var_names.get(vid, 'v'))
         for key in self.modifies:
+            if key == '*':
+                eng.havoc_all(st); continue
             old = eng.harr(st, key, None)
             st.heap[key] = eng.fresh(key + '!h', old.sort())
         head = st.clone()
@@ -262,6 +278,7 @@ class LoopContract:
         raise Unsupported('havoc of %r' % (v,))
 
     def check_frame(self, eng, head, s2, n, fr):
+        if '*' in self.modifies: return
         for key, arr in s2.heap.items():
             if key in self.modifies: continue
             h = head.heap.get(key)
@@ -394,6 +411,59 @@ def run_relational(eng, contract, rel, d, args, this, pre_state, paths, qn, pres
                                                     'site': site_sig(d, o1[2] if o1 else None) + '|' + site_sig(d, site2), 'extra_inputs': rel.symbols}))
 
 
+def run_loop_slice(eng, contract, d, st, fr, result):
+    """one arbitrary iteration of loop #k of the function, from an arbitrary state (a contract on the loop body)"""
+    import models as MD
+    target = None
+    fr.loop_ord = None
+    eng.loop_ordinal({'id': None}, fr)
+    for nid, o in eng.loop_ord_cache[fr.fn['id']].items():
+        if o == contract.slice_loop: target = nid
+    node = [None]
+    def visit(x):
+        if not isinstance(x, dict) or node[0] is not None: return
+        if x.get('id') == target: node[0] = x; return
+        for c in x.get('inner', []): visit(c)
+    visit(eng.ast.body_of(d))
+    n = node[0]
+    if n is None: raise Unsupported('slice: loop #%d not found in %s' % (contract.slice_loop, contract.qname))
+    eng.lazy_locals = True
+    try:
+        if n['kind'] == 'CXXForRangeStmt':
+            inner = n['inner']
+            rv = inner[1]['inner'][0]
+            rinit = [c for c in rv.get('inner', []) if 'kind' in c][0]
+            cont = eng.ev(rinit, st, fr)
+            var = inner[6]['inner'][0]; vt = TY.of_node(var)
+            eng.var_names[var['id']] = var.get('name')
+            if not (isinstance(cont, ObjLV) and cont.ty.kind == 'vector'): raise Unsupported('slice over %r' % (cont,))
+            i = eng.fresh('slice.i', I)
+            st.pc.append(z3.And(i >= 0, i < eng.vec_len(st, cont.ref)))
+            ety = cont.ty.args[0]
+            if eng.is_value_type(ety):
+                lv = ElemLV(cont.ref, i, ety)
+                st.env[var['id']] = lv if vt.ref else eng.load(st, lv)
+            else:
+                o = ObjLV(eng.elem_ref(st, cont.ref, i), ety)
+                st.env[var['id']] = o if vt.ref else eng.copy_object(st, o)
+            result['slice_index'] = i; result['slice_container'] = cont
+            body = inner[7]
+        elif n['kind'] == 'ForStmt':
+            body = n['inner'][4]
+            c = n['inner'][2]
+            if c.get('kind'): st.pc.append(eng.as_bool(eng.rv(c, st, fr)))
+        else:
+            raise Unsupported('slice of %s' % n['kind'])
+        result['slice_pre'] = st.clone()
+        if contract.pre:
+            C0 = Ctx(eng, d, result.get('args', {}), fr.this, result['slice_pre'])
+            for (nm, g) in contract.pre(C0): st.pc.append(g)
+            result['slice_pre'] = st.clone()
+        return eng.exec_stmt(body, st, fr)
+    finally:
+        eng.lazy_locals = False
+
+
 def site_sig(d, site):
     """position of a return/throw relative to the start of its function (stable under edits elsewhere in the file)"""
     if site is None: return 'end'
@@ -438,16 +508,21 @@ def check_function(eng, contract, result):
         if contract.setup: contract.setup(eng, st, args, this)
         pre_state = st.clone()
         C0 = Ctx(eng, d, args, this, pre_state)
-        pres = contract.pre(C0) if contract.pre else []
+        pres = contract.pre(C0) if (contract.pre and contract.slice_loop is None) else []
         for (nm, g) in pres: st.pc.append(g)
+        result['args'] = args
         pre_state = st.clone()
         result['requires'] = [(nm, g) for (nm, g) in pres]
         result['pre_pc'] = list(st.pc)
         fr = Frame(d, this, qn, 1)
         fr.ret_ty = TY.parse(d['type']['qualType'].split('(')[0].strip()) if d['kind'] != 'CXXConstructorDecl' else None
         eng.fns_executed.add(qn)
-        if d['kind'] == 'CXXConstructorDecl': eng.run_ctor_inits(d, this, st, fr)
-        outs = eng.exec_stmt(eng.ast.body_of(d), st, fr)
+        if contract.slice_loop is not None:
+            outs = run_loop_slice(eng, contract, d, st, fr, result)
+            pre_state = result['slice_pre']
+        else:
+            if d['kind'] == 'CXXConstructorDecl': eng.run_ctor_inits(d, this, st, fr)
+            outs = eng.exec_stmt(eng.ast.body_of(d), st, fr)
         paths = []
         for (s, o) in outs:
             site = None
@@ -458,6 +533,8 @@ def check_function(eng, contract, result):
                 ret = None; outcome = 'throw:' + str(o[1]); site = o[2]
                 if 'noexcept' in d['type']['qualType'] and 'noexcept(false)' not in d['type']['qualType']:
                     eng.obligations.append(Obligation('safety:no-terminate', s.pc, z3.BoolVal(False), 'safety', eng.where(o[2], fr), info={'fn': qn}))
+            elif contract.slice_loop is not None:
+                ret = None; outcome = o[0]; site = None
             else:
                 raise Unsupported('break/continue at function level')
             C = Ctx(eng, d, args, this, pre_state, s, ret, outcome)
